@@ -30,6 +30,8 @@ type Params struct {
 	Sticky   uint64
 	PCTDepth int
 	MapPerm  bool
+	// UnlockYield: a scheduling point after every lock release (two thirds of the runs)
+	UnlockYield bool
 }
 
 // R is the context of one simulated run.
@@ -184,6 +186,7 @@ func paramsOf(seed uint64) Params {
 		p.PCTDepth = 1 + int((h>>8)%3)
 	}
 	p.MapPerm = (h>>16)%2 == 1
+	p.UnlockYield = (h>>20)%3 != 0
 	return p
 }
 
@@ -241,7 +244,7 @@ func execute(t *testing.T, w *Workload, tier string, seed uint64, index int, o e
 		synctest.Test(t, func(t *testing.T) {
 			p := paramsOf(seed)
 			cfg := vsimrt.Config{Seed: seed, MaxG: w.MaxG, MaxSteps: w.MaxSteps, SpinLimit: w.Spin, Strategy: p.Strategy, Sticky: p.Sticky,
-				PCTDepth: p.PCTDepth, PCTLen: w.PCTLen, MapPerm: p.MapPerm, Replay: o.replay, Strict: o.strict, Trace: o.trace, StallMean: w.Stall}
+				PCTDepth: p.PCTDepth, PCTLen: w.PCTLen, MapPerm: p.MapPerm, UnlockYield: p.UnlockYield, Replay: o.replay, Strict: o.strict, Trace: o.trace, StallMean: w.Stall}
 			s := vsimrt.New(cfg)
 			defer s.Close()
 			r.Sim = s
